@@ -201,28 +201,19 @@ def is_signature(text, fi):
     return any(shape.match(p, v) is not None for v, _ in closure_defs(fi, e.id) for p in pats)
 
 
-def signature_walk(node, fi, npos):
-    """Role: `node` is evaluated once per parameter *name* of the wrapped function's signature, in declaration order
-    (`sig.parameters` itself or an order-preserving view of it: enumerate / list / tuple / iter / .keys() / islice from a
-    lower bound / a `[lower:]` slice).  Returns None if it is not, else (name_var, index_texts, beyond): the variable
-    holding the parameter name, the spellings of its absolute position (empty if there is no counter), and whether
-    `node` is only reached for the parameters after the first `npos` (text, e.g. 'len(args)') ones."""
-    it = enclosing_iteration(node, fi.node)
-    if it is None:
-        return None
-    target, e = it[0], resolve(it[1], fi.node)
-    enumerated, start, lower = False, "0", "0"
-    if isinstance(e, ast.Call) and call_name(e) == "enumerate" and e.args:
-        enumerated = True
-        start = norm(e.args[1]) if len(e.args) > 1 else next((norm(k.value) for k in e.keywords if k.arg == "start"), "0")
-        e = e.args[0]
+def _signature_view(e, fi, lower="0"):
+    """`e` (resolved) peeled down to `<signature>.parameters`: (mode, lower, text of the mapping) with mode 'names' /
+    'objects' (.values()) / 'items' (.items()); order-preserving wrappers (list / tuple / iter / .keys() / islice from a
+    lower bound / a `[lower:]` slice / a view prepared once by the enclosing function) are looked through.  None if
+    `e` is not such a view."""
+    mode = "names"
     while True:
         if isinstance(e, ast.Call) and call_name(e) in ("list", "tuple", "iter") and len(e.args) == 1 and not e.keywords:
             e = e.args[0]
         elif isinstance(e, ast.Call) and call_name(e) == "islice" and len(e.args) in (3, 4) and lower == "0" and norm(e.args[2]) == "None" and (len(e.args) == 3 or norm(e.args[3]) in ("None", "1")):
             lower, e = norm(e.args[1]), e.args[0]
-        elif isinstance(e, ast.Call) and isinstance(e.func, ast.Attribute) and e.func.attr == "keys" and not e.args:
-            e = e.func.value
+        elif isinstance(e, ast.Call) and isinstance(e.func, ast.Attribute) and e.func.attr in ("keys", "values", "items") and not e.args and mode == "names":
+            mode, e = {"keys": "names", "values": "objects", "items": "items"}[e.func.attr], e.func.value
         elif isinstance(e, ast.Subscript) and isinstance(e.slice, ast.Slice) and e.slice.upper is None and e.slice.step is None and lower == "0":
             lower, e = (norm(e.slice.lower) if e.slice.lower is not None else "0"), e.value
         elif isinstance(e, ast.Name) and len(closure_defs(fi, e.id)) == 1:
@@ -233,21 +224,96 @@ def signature_walk(node, fi, npos):
     m = shape.match("_S.parameters", e)
     if m is None or not is_signature(m["_S"], fi):
         return None
-    if enumerated:
-        if not (isinstance(target, ast.Tuple) and len(target.elts) == 2 and all(isinstance(t, ast.Name) for t in target.elts)):
-            return None
-        counter, name = target.elts[0].id, target.elts[1].id
-        # the absolute position of the parameter in terms of the counter
-        index = [counter] if start == lower else [f"{lower} + {counter}", f"{counter} + {lower}"] if start == "0" else []
-    elif isinstance(target, ast.Name):
-        counter, index, name = None, [], target.id
-    else:
+    return mode, lower, norm(e)
+
+
+def signature_walk(node, fi, npos):
+    """Role: `node` is evaluated once per parameter of the wrapped function's signature, in declaration order: inside a
+    loop / comprehension over `sig.parameters` or an order-preserving view of it (see _signature_view; names, the
+    parameter objects of `.values()` or the pairs of `.items()`), possibly enumerated, or inside an index loop
+    `for i in range(lower, len(VIEW))` that reads `VIEW[i]`.
+    Returns None if it is not, else (names, index, beyond, objects): the spellings (temporaries resolved) of the
+    parameter's name and of its absolute position (empty if there is no counter), whether `node` is only reached for
+    the parameters after the first `npos` (text, e.g. 'len(args)') ones, and the spellings of the Parameter object."""
+    it = enclosing_iteration(node, fi.node)
+    if it is None:
         return None
+    target, e = it[0], resolve(it[1], fi.node)
+    rng = shape.match("range(_L, len(_V))", e) or shape.match("range(len(_V))", e)
+    if rng is not None and isinstance(target, ast.Name):
+        view = _signature_view(ast.parse(rng["_V"], mode="eval").body, fi)
+        if view is None or view[1] != "0":
+            return None
+        mode, lower, mapping = view[0], rng.get("_L", "0"), view[2]
+        counter, index = target.id, [target.id]
+        item = f"{rng['_V']}[{counter}]"
+        names, objs = {"names": ([item], [f"{mapping}[{item}]"]), "objects": ([f"{item}.name"], [item]), "items": ([f"{item}[0]", f"{item}[1].name"], [f"{item}[1]"])}[mode]
+    else:
+        enumerated, start = False, "0"
+        if isinstance(e, ast.Call) and call_name(e) == "enumerate" and e.args:
+            enumerated = True
+            start = norm(e.args[1]) if len(e.args) > 1 else next((norm(k.value) for k in e.keywords if k.arg == "start"), "0")
+            e = e.args[0]
+        view = _signature_view(e, fi)
+        if view is None:
+            return None
+        mode, lower, mapping = view
+        if enumerated:
+            if not (isinstance(target, ast.Tuple) and len(target.elts) == 2 and isinstance(target.elts[0], ast.Name)):
+                return None
+            counter, element = target.elts[0].id, target.elts[1]
+            # the absolute position of the parameter in terms of the counter
+            index = [counter] if start == lower else [f"{lower} + {counter}", f"{counter} + {lower}"] if start == "0" else []
+        else:
+            counter, index, element = None, [], target
+        if mode == "items":
+            kp = shape.match("(_K, _P)", element)
+            if kp is None:
+                return None
+            names, objs = [kp["_K"], f"{kp['_P']}.name"], [kp["_P"], f"{mapping}[{kp['_K']}]"]
+        elif not isinstance(element, ast.Name):
+            return None
+        elif mode == "objects":
+            names, objs = [f"{element.id}.name"], [element.id]
+        else:
+            names, objs = [element.id], [f"{mapping}[{element.id}]"]
     beyond = lower == npos
     if not beyond and lower == "0" and index == [counter]:
         beyond = any((t and norm(resolve(a, fi.node)) in (f"{counter} >= {npos}", f"{npos} <= {counter}")) or
                      (not t and norm(resolve(a, fi.node)) in (f"{counter} < {npos}", f"{npos} > {counter}")) for a, t in facts(node, fi.node))
-    return name, index, beyond
+    return names, index, beyond, objs
+
+
+def names_it(e, fn, texts):
+    """expression `e` is one of `texts`, as written or with temporaries resolved"""
+    return norm(e) in texts or rnorm(e, fn) in texts
+
+
+def one_per_item(owner, name, over):
+    """`name`, a local of function `owner`, holds exactly one entry per item of `over`, in order: a list comprehension
+    without filter over it, list(map(f, over)), or an empty list filled by one unconditional `.append(x)` in a loop
+    over it.  Returns [(element expression, loop variable text)] (element None for map), or None."""
+    d = defs_of(owner)
+    vals = [v for v, kind, st in d.defs.get(name, []) if kind == "assign" and v is not None]
+    if len(vals) != 1 or name in d.params:
+        return None
+    v = vals[0]
+    if isinstance(v, ast.ListComp) and len(v.generators) == 1 and not v.generators[0].ifs and norm(v.generators[0].iter) == over:
+        return [(v.elt, norm(v.generators[0].target))] if not additions(owner.node, name) else None
+    if shape.match(f"list(map(_F, {over}))", v) is not None:
+        return [(None, None)] if not additions(owner.node, name) else None
+    if norm(v) in ("[]", "list()"):
+        apps = [x for x, _ in find_expr(owner.node, f"{name}.append(_X)")]
+        if len(apps) != 1 or len(additions(owner.node, name)) != 1:
+            return None
+        it = enclosing_iteration(apps[0], owner.node)
+        loop = getattr(apps[0], "_parent", None)
+        while loop is not None and not isinstance(loop, (ast.For, ast.AsyncFor)):
+            loop = getattr(loop, "_parent", None)
+        if it is None or loop is None or norm(it[1]) != over or conditional_in(getattr(apps[0], "_parent", None), loop) is not None or enclosing_iteration(loop, owner.node) is not None:
+            return None
+        return [(apps[0].args[0], norm(it[0]))]
+    return None
 
 
 def additions(fn, name):
@@ -698,7 +764,7 @@ def check_wrapper_order_rule(ck, ix):
     for el in added:
         m = shape.match(f"{kwmap}[_N]", el)
         sw = signature_walk(el, w, npos) if m is not None else None
-        good.append(sw is not None and m["_N"] == sw[0] and sw[2])
+        good.append(sw is not None and names_it(el.slice, fn, sw[0]) and sw[2])
     ck.check(bool(good) and all(good), "G-PROV", "registry_helpers.check|keyword-arguments-in-signature-order", w.loc(),
              "keyword/default values are appended in signature order (zip with the declared dimensions is positional)",
              "keyword and default arguments are no longer collected by walking sig.parameters in order: dimensions are checked against the wrong arguments")
